@@ -26,7 +26,7 @@ ASSUMPTIONS = [
     'publish/advance; races inside those sections are out of reach',
     'in-memory transport with msgpack copies; get_version shim']
 NOT_REACHED = ['real signal delivery and real process groups', 'Flux and Dragon executors']
-BUDGET = {'quick': 100, 'thorough': 1500}
+BUDGET = {'quick': 160, 'thorough': 1500}
 
 
 @st.composite
@@ -231,15 +231,16 @@ def burst_cases(tier):
 
 def parts(tier):
     return [
-        Part('popen_schedules', schedules(), quick=300, thorough=2500),
+        # (cheap and constructed parts first: a wall-clock budget hit leaves the long random part short)
+        Part('flux_pipeline', fluxsim.cases(), quick=300, thorough=2500),
         Part('noop_schedules', schedules(spawner='NOOP'), quick=40, thorough=200),
-        Part('one_task_interleavings', enum=dfs_cases),
-        Part('preemption_sweep', enum=sweep_cases),
-        Part('two_task_sweep', enum=sweep2_cases),
         Part('startup_report', enum=startup_cases),
         Part('limit_after_startup_report', enum=limit_cases),
         Part('launch_bursts', enum=burst_cases),
-        Part('flux_pipeline', fluxsim.cases(), quick=300, thorough=2500),
+        Part('one_task_interleavings', enum=dfs_cases),
+        Part('preemption_sweep', enum=sweep_cases),
+        Part('two_task_sweep', enum=sweep2_cases),
+        Part('popen_schedules', schedules(), quick=300, thorough=2500),
     ]
 
 
